@@ -1,5 +1,234 @@
 package main
 
-// genTopoSchema: JSON struct schema of topology/topology.go -> Gen/TopoSchema.v
-// (owned by the C13-C15 work; stub until then).
-func genTopoSchema(repo, out string) {}
+// genTopoSchema: JSON struct schema of topology/topology.go -> Gen/TopoSchema.v.
+//
+// For every struct type declared in topology.go the field list is read off the AST:
+// Go field name, Go type, the effective JSON name (encoding/json's rule: tag name if present
+// and valid, else the Go name), omitempty, ",string", embedded, exported, json:"-".
+// The result is ONE Gallina value per struct (a Lib/JsonTree.ty, nested structs inlined) and
+// `topo_schema` = the type of `Topology`.  Types the tree model does not cover become
+// `TUnsupported`, which makes `wf_ty topo_schema` compute to false, i.e. breaks the proof
+// obligation of C14 rather than this translator.
+
+import (
+	"fmt"
+	"go/ast"
+	"go/token"
+	"path/filepath"
+	"reflect"
+	"strconv"
+	"strings"
+	"unicode"
+)
+
+type tsGen struct {
+	fset    *token.FileSet
+	structs map[string]*ast.StructType
+	order   []string
+	busy    map[string]bool
+	done    map[string]bool
+	b       strings.Builder
+}
+
+func coqBytes(s string) string {
+	plain := true
+	for i := 0; i < len(s); i++ {
+		if s[i] < 32 || s[i] > 126 {
+			plain = false
+		}
+	}
+	if plain {
+		return `(str "` + strings.ReplaceAll(s, `"`, `""`) + `")`
+	}
+	var xs []string
+	for i := 0; i < len(s); i++ {
+		xs = append(xs, strconv.Itoa(int(s[i])))
+	}
+	return "[" + strings.Join(xs, "; ") + "]"
+}
+
+func coqBool(b bool) string {
+	if b {
+		return "true"
+	}
+	return "false"
+}
+
+// encoding/json isValidTag
+func jsonValidTag(s string) bool {
+	if s == "" {
+		return false
+	}
+	for _, c := range s {
+		switch {
+		case strings.ContainsRune("!#$%&()*+-./:;<=>?@[]^_{|}~ ", c):
+		case !unicode.IsLetter(c) && !unicode.IsDigit(c):
+			return false
+		}
+	}
+	return true
+}
+
+var intRanges = map[string][2]string{
+	"int":     {"(-9223372036854775808)", "9223372036854775807"},
+	"int64":   {"(-9223372036854775808)", "9223372036854775807"},
+	"int32":   {"(-2147483648)", "2147483647"},
+	"int16":   {"(-32768)", "32767"},
+	"int8":    {"(-128)", "127"},
+	"uint":    {"0", "18446744073709551615"},
+	"uint64":  {"0", "18446744073709551615"},
+	"uintptr": {"0", "18446744073709551615"},
+	"uint32":  {"0", "4294967295"},
+	"uint16":  {"0", "65535"},
+	"uint8":   {"0", "255"},
+	"byte":    {"0", "255"},
+	"rune":    {"(-2147483648)", "2147483647"},
+}
+
+// tyExpr returns the Gallina term for a Go type expression.
+func (g *tsGen) tyExpr(e ast.Expr) string {
+	src := exprString(g.fset, e)
+	switch t := e.(type) {
+	case *ast.Ident:
+		if r, ok := intRanges[t.Name]; ok {
+			return fmt.Sprintf("(TInt %s %s)", r[0], r[1])
+		}
+		switch t.Name {
+		case "string":
+			return "TStr"
+		case "bool":
+			return "TBool"
+		case "float32":
+			return "(TFloat 32)"
+		case "float64":
+			return "(TFloat 64)"
+		}
+		if _, ok := g.structs[t.Name]; ok {
+			if g.busy[t.Name] { // recursive type: not covered
+				return "(TUnsupported " + coqBytes(src) + ")"
+			}
+			g.emitStruct(t.Name)
+			return "ty_" + t.Name
+		}
+		return "(TUnsupported " + coqBytes(src) + ")"
+	case *ast.StarExpr:
+		return "(TPtr " + g.tyExpr(t.X) + ")"
+	case *ast.ArrayType:
+		if t.Len == nil {
+			if id, ok := t.Elt.(*ast.Ident); ok && (id.Name == "byte" || id.Name == "uint8") {
+				return "(TUnsupported " + coqBytes(src) + ")" // []byte is base64 in JSON
+			}
+			return "(TSlice " + g.tyExpr(t.Elt) + ")"
+		}
+		return "(TUnsupported " + coqBytes(src) + ")"
+	case *ast.MapType:
+		if id, ok := t.Key.(*ast.Ident); ok {
+			if r, ok := intRanges[id.Name]; ok {
+				return fmt.Sprintf("(TMap %s %s %s)", r[0], r[1], g.tyExpr(t.Value))
+			}
+		}
+		return "(TUnsupported " + coqBytes(src) + ")"
+	case *ast.SelectorExpr:
+		return "(TOpaque " + coqBytes(src) + ")"
+	}
+	return "(TUnsupported " + coqBytes(src) + ")"
+}
+
+func (g *tsGen) emitStruct(name string) {
+	if g.done[name] {
+		return
+	}
+	g.busy[name] = true
+	st := g.structs[name]
+	var rows []string
+	for _, f := range st.Fields.List {
+		tag := ""
+		if f.Tag != nil {
+			raw, err := strconv.Unquote(f.Tag.Value)
+			if err != nil {
+				die("topology.go: bad struct tag %s", f.Tag.Value)
+			}
+			tag = reflect.StructTag(raw).Get("json")
+		}
+		gotype := exprString(g.fset, f.Type)
+		tyTerm := g.tyExpr(f.Type)
+		type nm struct {
+			name     string
+			embedded bool
+		}
+		var names []nm
+		if len(f.Names) == 0 {
+			// embedded: the field name is the type name without package and pointer
+			n := gotype
+			n = strings.TrimPrefix(n, "*")
+			if i := strings.LastIndex(n, "."); i >= 0 {
+				n = n[i+1:]
+			}
+			names = append(names, nm{n, true})
+		} else {
+			for _, id := range f.Names {
+				names = append(names, nm{id.Name, false})
+			}
+		}
+		for _, n := range names {
+			skip := tag == "-"
+			tname, opts, _ := strings.Cut(tag, ",")
+			omit, quoted := false, false
+			for _, o := range strings.Split(opts, ",") {
+				if o == "omitempty" {
+					omit = true
+				}
+				if o == "string" {
+					quoted = true
+				}
+			}
+			jname := n.name
+			if !skip && jsonValidTag(tname) {
+				jname = tname
+			}
+			rows = append(rows, fmt.Sprintf("    (FI %s %s %s %s %s %s %s %s, %s)",
+				coqBytes(n.name), coqBytes(gotype), coqBytes(jname), coqBool(omit), coqBool(quoted),
+				coqBool(n.embedded), coqBool(ast.IsExported(n.name)), coqBool(skip), tyTerm))
+		}
+	}
+	fmt.Fprintf(&g.b, "Definition ty_%s : ty :=\n  TStruct %s [\n%s\n  ].\n\n", name, coqBytes(name), strings.Join(rows, ";\n"))
+	g.busy[name] = false
+	g.done[name] = true
+	g.order = append(g.order, name)
+}
+
+func genTopoSchema(repo, out string) {
+	path := filepath.Join(repo, "topology", "topology.go")
+	fset, f := parseFile(path)
+	g := &tsGen{fset: fset, structs: map[string]*ast.StructType{}, busy: map[string]bool{}, done: map[string]bool{}}
+	var declared []string
+	for _, d := range f.Decls {
+		gd, ok := d.(*ast.GenDecl)
+		if !ok || gd.Tok != token.TYPE {
+			continue
+		}
+		for _, s := range gd.Specs {
+			ts := s.(*ast.TypeSpec)
+			if st, ok := ts.Type.(*ast.StructType); ok {
+				g.structs[ts.Name.Name] = st
+				declared = append(declared, ts.Name.Name)
+			}
+		}
+	}
+	if _, ok := g.structs["Topology"]; !ok {
+		die("topology.go: type Topology not found")
+	}
+	g.b.WriteString("(* GENERATED by /verif/gen from /repo/topology/topology.go on every run. Do not edit. *)\n")
+	g.b.WriteString("From RP Require Import Lib.Base Lib.Sexp Lib.JsonTree.\nFrom Coq Require Import String.\nLocal Open Scope string_scope.\nOpen Scope Z_scope.\n\n")
+	g.b.WriteString("(* FI goname gotype jsonname omitempty quoted embedded exported skip *)\n\n")
+	for _, n := range declared { // dependencies are emitted first by tyExpr
+		g.emitStruct(n)
+	}
+	var names []string
+	for _, n := range g.order {
+		names = append(names, fmt.Sprintf("(%s, ty_%s)", coqBytes(n), n))
+	}
+	fmt.Fprintf(&g.b, "Definition topo_structs : list (list Z * ty) :=\n  [%s].\n\n", strings.Join(names, "; "))
+	g.b.WriteString("Definition topo_schema : ty := ty_Topology.\n")
+	writeIfChanged(filepath.Join(out, "TopoSchema.v"), g.b.String())
+}
